@@ -10,6 +10,7 @@
 #include <string>
 #include <vector>
 #include <limits>
+#include <locale>
 #include <dune/common/bigunsignedint.hh>
 #include <dune/common/hash.hh>
 #include <cstring>
@@ -103,6 +104,14 @@ static bool compare(const std::string& c, const X& x, const Y& y)
   if (c == "lt") return x < y; if (c == "le") return x <= y; if (c == "gt") return x > y; if (c == "ge") return x >= y;
   if (c == "eq") return x == y; return x != y;
 }
+
+// a locale whose numpunct facet groups digits (group size g, separator ','): part of the stream state an integer insertion depends on
+struct Grouping : std::numpunct<char> {
+  int g;
+  explicit Grouping(int g_) : g(g_) {}
+  std::string do_grouping() const override { return std::string(1, char(g)); }
+  char do_thousands_sep() const override { return ','; }
+};
 
 // object histories: k prog r0,r1,r2 tok,tok,...   (instruction set of coq/C10_Model.v c10_instr)
 template<int k>
@@ -278,6 +287,27 @@ static std::string run(const std::vector<std::string>& t)
     if (op == "streamsb") {
       // a stream with showbase set (and uppercase, which applies to the letters): the digits must still read back as the value
       B a = from_hex<k>(t[2]); std::ostringstream os; os << std::showbase << a << "|" << 255 << "|" << std::hex << 255; return os.str();
+    }
+    if (op == "printst" || op == "streamst") {
+      // print / operator<< on a stream in a given formatting state: t[3] = <adj><base><sb><uc><sp><grp>, t[4] width, t[5] fill (hex code)
+      B a = from_hex<k>(t[2]); const std::string& f = t[3];
+      using F = std::ios_base;
+      std::ostringstream os;
+      if (f[5] != '0') os.imbue(std::locale(std::locale::classic(), new Grouping(f[5] - '0')));
+      os.setf(f[0] == 'l' ? F::left : f[0] == 'r' ? F::right : f[0] == 'i' ? F::internal : f[0] == 'b' ? (F::left | F::right) : F::fmtflags(0), F::adjustfield);
+      os.setf(f[1] == 'h' ? F::hex : f[1] == 'o' ? F::oct : f[1] == 'd' ? F::dec : F::fmtflags(0), F::basefield);
+      if (f[2] == '1') os.setf(F::showbase); if (f[3] == '1') os.setf(F::uppercase); if (f[4] == '1') os.setf(F::showpos);
+      os.fill(char(std::stoi(t[5], nullptr, 16)));
+      os.width(std::stoi(t[4]));                 // a width set immediately before the insertion
+      std::string flaw;
+      if (op == "printst") a.print(os); else if (&(os << a) != &os) flaw = " (operator<< does not return the stream)";
+      const F::fmtflags fl = os.flags(), adj = fl & F::adjustfield, base = fl & F::basefield;
+      char buf[96];
+      std::snprintf(buf, sizeof buf, "] w=%ld fill=%02x adj=%c base=%c sb=%d uc=%d sp=%d", (long) os.width(), (unsigned) (unsigned char) os.fill(),
+                    adj == F::left ? 'l' : adj == F::right ? 'r' : adj == F::internal ? 'i' : adj == F::fmtflags(0) ? 'n' : 'b',
+                    base == F::dec ? 'd' : base == F::hex ? 'h' : base == F::oct ? 'o' : 'n',
+                    int((fl & F::showbase) != 0), int((fl & F::uppercase) != 0), int((fl & F::showpos) != 0));
+      return "[" + os.str() + buf + (os.good() ? "" : " (stream not good)") + flaw;
     }
     if (op == "max") return to_hex(std::numeric_limits<B>::max());
     if (op == "min") return to_hex(std::numeric_limits<B>::min());
